@@ -33,6 +33,9 @@ type Req struct {
 	Path   string  `json:"path"`
 	Spoofs []Spoof `json:"spoofs"`
 	Cuts   []int   `json:"cuts,omitempty"`
+	// Fillers: this many header fields with distinct, never-seen-before names precede the spoofed ones
+	// (a connection's worth of unusual header names exhausts per-connection header-name caches)
+	Fillers int `json:"fillers,omitempty"`
 }
 
 type Script struct {
@@ -100,6 +103,7 @@ func gen(t *rapid.T) Script {
 	k := 0
 	for i := 0; i < nr; i++ {
 		r := Req{Method: rapid.SampledFrom([]string{"GET", "POST", "DELETE"}).Draw(t, "m"), Path: fmt.Sprintf("/r%d", i)}
+		r.Fillers = rapid.SampledFrom([]int{0, 0, 0, 8, 24, 40}).Draw(t, "fillers")
 		ns := rapid.IntRange(0, 4).Draw(t, "nspoof")
 		for j := 0; j < ns; j++ {
 			var n string
@@ -177,6 +181,9 @@ func exec(t *testing.T, s Script) *vstat.Violation {
 		o.proto = cc.TLS.Proto
 		for _, r := range s.Reqs {
 			rs := rig.ReqSpec{Method: r.Method, Path: r.Path, Authority: "example.com", BlockCuts: r.Cuts}
+			for j := 0; j < r.Fillers; j++ {
+				rs.Headers = append(rs.Headers, [2]string{fmt.Sprintf("x-filler-%s-%d", strings.Trim(r.Path, "/"), j), "f"})
+			}
 			for _, sp := range r.Spoofs {
 				rs.Headers = append(rs.Headers, [2]string{sp.Name, sp.Value})
 			}
@@ -278,6 +285,14 @@ func exec(t *testing.T, s Script) *vstat.Violation {
 	if nontrivial {
 		cl = append(cl, "client-value-where-injector-yields-nothing")
 	}
+	fill := 0
+	for _, r := range s.Reqs {
+		if fill >= 20 && len(r.Spoofs) > 0 || r.Fillers >= 20 && len(r.Spoofs) > 0 {
+			cl = append(cl, "client-value-after-20+-distinct-header-names:"+s.Proto)
+			break
+		}
+		fill += r.Fillers
+	}
 	col.Case(fmt.Sprintf("%+v", s), nontrivial, s, cl...)
 	return nil
 }
@@ -292,6 +307,6 @@ func firstWords(s string) string {
 
 func TestSpoof(t *testing.T) {
 	rig.Certs()
-	col.Mandatory("proto:h2", "proto:http/1.1", "proto:none", "unparsable-hello", "custom-outcome:value", "custom-outcome:empty", "custom-outcome:error", "client-value-where-injector-yields-nothing")
+	col.Mandatory("proto:h2", "proto:http/1.1", "proto:none", "unparsable-hello", "custom-outcome:value", "custom-outcome:empty", "custom-outcome:error", "client-value-where-injector-yields-nothing", "client-value-after-20+-distinct-header-names:h2")
 	vstat.Run(t, vstat.Spec[Script]{Col: col, Quick: 2500, Thorough: 60000, Gen: gen, Exec: func(s Script) *vstat.Violation { return exec(t, s) }})
 }
